@@ -771,10 +771,14 @@ def Norm(array: FeArray.FeArrayALike, **kwargs) -> FeArray.FeArrayALike:
     """`np.linalg.norm()` wrapper.\n
     see https://numpy.org/doc/stable/reference/generated/numpy.linalg.norm.html"""
 
-    res: FeArray.FeArrayALike = np.linalg.norm(array, **kwargs)
+    res: FeArray.FeArrayALike = np.linalg.norm(np.asarray(array), **kwargs)
 
     if isinstance(array, FeArray):
-        res = FeArray.asfearray(res)
+        # still a field only if neither the element nor the Gauss-point axis was consumed
+        if _KeepsFeAxes(kwargs.get("axis"), array.ndim) and np.ndim(res) >= 2:
+            res = FeArray.asfearray(res)
+        else:
+            res = np.asarray(res)
 
     return res
 
